@@ -126,6 +126,25 @@ func ruleC14(c *Ctx) {
 				}
 				c.check(len(cls) == 1 && e.Seq > cls[0].Seq, "C14-R5", fname, "buffer read only after Close ["+label+"]", c.P.InstrPos(e.Instr), "after Close", "compressed bytes are read before the DEFLATE writer is closed")
 			}
+			// once the stream is closed the buffer is only looked at: every later Bytes() must see the same octets, so nothing
+			// may drain (Read, WriteTo, io.Copy from it), reset or extend it between being sent and being signed
+			if len(cls) == 1 {
+				stable := true
+				for _, e := range t.St.events {
+					if e.Kind != EvCall || e.Seq <= cls[0].Seq || bufferReadOnly[shortName(e.Callee)] {
+						continue
+					}
+					for _, a := range e.Args {
+						if a != nil && stripIface(a).Key() == buf.Key() {
+							stable = false
+							c.bad("C14-R4", fname, "compressed bytes unchanged between the parameter and the signature ["+label+"]", c.P.InstrPos(e.Instr), shortName(e.Callee)+" is handed the buffer of the closed DEFLATE stream: what a later Bytes() returns (the octets that are signed) is no longer what was sent")
+						}
+					}
+				}
+				if stable {
+					c.ok("C14-R4", fname, "compressed bytes unchanged between the parameter and the signature ["+label+"]", pos, "after Close the buffer is only read through Bytes/Len/String")
+				}
+			}
 			wantB64 := "(*encoding/base64.Encoding).EncodeToString(encoding/base64.StdEncoding, (*bytes.Buffer).Bytes(" + ap(buf) + "))"
 			// ---- query assembly
 			qss := findCall(t, "(*net/url.URL).Query")
